@@ -147,6 +147,8 @@ inline void run(Ctx& ctx, Case c) {
   if (c.alias & 2) r_limbs = std::max(r_limbs, c.bs);
   Rng rng(c.seed);
   Arena ar;
+  // one case in four lays res / a / b out back to back in one region (caller-side arena layout)
+  if (c.amode != 2 && ((c.seed >> 5) & 3) == 3) ar.set_packed(((c.seed >> 7) & 1) ? +1 : -1);
   const bool mid = c.amode == 2;
   Buf R = ar.alloc(ext(r_limbs, rsl), mid ? MID : (c.seed & 1) ? OVER : UNDER, c.misalign, c.prefill, c.seed);
   Buf A = (c.alias & 1) ? R : ar.alloc(ext(c.as, asl), mid ? MID : (c.seed & 2) ? OVER : UNDER, (c.misalign * 3 + 8) % 64, 3, c.seed + 11);
